@@ -15,7 +15,7 @@ import contracts.frame as CF
 import contracts.command as CC
 from specs import gateways as GW
 from checks.c01 import USE as USE0
-from checks.drv_common import FLAG_VARIANTS, abstract_command, bytes_equal
+from checks.drv_common import Attrs, FLAG_VARIANTS, abstract_command, bytes_equal
 from checks.c19 import luba_proto, sci_proto, q_items, LUBA, SCI, LS, SS
 
 USE = USE0
@@ -41,6 +41,19 @@ def check_response(ctx, interp, out, rc, expect, label=""):
             ctx.prove(label + "answer-carries-the-reported-value", And(raw._data == expect[1], Not(raw._error)))
     elif expect[0] == "garbled":
         ctx.prove(label + "garbled-answer-wraps-a-framing-error-frame", raw is not None and is_instance(raw, F.BackwardFrameError))
+
+
+def mk_report(ctx, data):
+    return bytes(data) if ctx.native else SBytes(data)
+
+
+def entries(mapping):
+    """(key, value) pairs of the driver's in-flight table (association list symbolically, dict natively)"""
+    return list(mapping.live_entries()) if hasattr(mapping, "live_entries") else list(mapping.items())
+
+
+def has_key(interp, mapping, key):
+    return mapping.lookup(interp, key)[0] if hasattr(mapping, "lookup") else key in mapping
 
 
 def units(tier):
@@ -79,7 +92,7 @@ def units(tier):
                 return (kind, v), (bytes(data) if ctx.native else SBytes(data))
 
             def env(event):
-                targets = [msgs for key, (ev, msgs) in outstanding.live_entries() if ev is event]
+                targets = [msgs for key, (ev, msgs) in entries(outstanding) if ev is event]
                 if len(delivered) >= 4 or not targets:
                     return
                 k = ctx.choose_int(ctx.fresh_int("report_kind", 0, 4), "report kind")
@@ -91,10 +104,9 @@ def units(tier):
                 for msgs in targets:
                     msgs.append(item[1])
                 event.flag = True
-            if not ctx.native:
-                world.hooks["event"] = env
+            world.hooks["event"] = env
             out = world.run(HID.tridonic._send_raw, drv, cmd)
-            if ctx.native or out[0] == "blocked":
+            if out[0] == "blocked":
                 return
             ctx.cover()
             kinds = [d[0] for d in delivered]
@@ -111,7 +123,7 @@ def units(tier):
             last = answers[-1]
             expect = {"value": ("value", last[1]), "silent": ("silent",), "garbled": ("garbled", None)}[last[0]]
             check_response(ctx, interp, out, rc, expect)
-            ctx.prove("in-flight-slot-released", not outstanding.lookup(interp, seq)[0])
+            ctx.prove("in-flight-slot-released", not has_key(interp, outstanding, seq))
         unit("tridonic/_send_raw/%s" % vname, r_tri)
 
     # routing of reports by sequence number
@@ -122,14 +134,12 @@ def units(tier):
         ctx.assume(s1 != s2)
         e1, e2 = world.event(False, "e1"), world.event(False, "e2")
         m1, m2 = ctx.track([]), ctx.track([])
-        outstanding = AssocDict([(s1, (e1, m1)), (s2, (e2, m2))])
+        outstanding = {s1: (e1, m1), s2: (e2, m2)} if ctx.native else AssocDict([(s1, (e1, m1)), (s2, (e2, m2))])
         mode = ctx.int("mode", 0, 255)
         body = [mode] + [ctx.int("r%d" % i, 0, 255) for i in range(1, 8)] + [s] + [0] * 55
         data = bytes(body) if ctx.native else SBytes(body)
         drv = ctx.new(HID.tridonic, _log=logging.getLogger("x"), _outstanding=outstanding, _bus_watch_data=ctx.track([]),
                       _bus_watch_data_available=world.event(False, "watch"), firmware_version="1.0", serial="00")
-        if ctx.native:
-            return
         try:
             interp.call(interp.get_attr(drv, "_handle_read"), (data,), {})
         except RaiseEx as e:
@@ -155,16 +165,13 @@ def units(tier):
             lost = ctx.bool("gateway_lost")
             drv = ctx.new(HID.hasseb, _log=logging.getLogger("x"), connected=world.event(True, "connected"),
                           _command_lock=world.lock("command"), _response_available=world.event(False, "response"),
-                          _response=SBytes([status, value]) if not ctx.native else None, _f=7,
+                          _response=mk_report(ctx, [status, value]), _f=7,
                           bus_traffic=ctx.new(HID._callback, _parent=None, _callbacks={}))
-            stale = drv.fields["_response"] if not ctx.native else None
 
             def env(event):
                 # the reader hands over the gateway's report for THIS command (or the driver is shut down)
-                drv.fields["_response"] = "fail" if interp.test(lost) else SBytes([status, value])
+                interp.set_attr(drv, "_response", "fail" if interp.test(lost) else mk_report(ctx, [status, value]))
                 event.flag = True
-            if ctx.native:
-                return
             world.hooks[("event", "response")] = env
             out = world.run(HID.hasseb._send_raw, drv, cmd)
             ctx.cover()
@@ -193,29 +200,29 @@ def units(tier):
                 def r_ser(ctx, interp, fn, gw=gw, twice=twice, rc=rc, nstale=nstale, in_tx=in_tx):
                     world = World(ctx, interp)
                     install(interp, world)
-                    if ctx.native:
-                        return
                     cmd, fr = abstract_command(ctx, 16, twice, rc)
                     stale = [ctx.int("stale%d" % i, 0, 255) for i in range(nstale)]
                     answer = ctx.int("answer", 0, 255)
                     answered = ctx.bool("unit_answers")
                     if gw == "luba":
                         proto, kids = luba_proto(ctx, world, LS.WAIT_START, [None] * 24, None, 0)
-                        proto.fields["_tx_lock"] = world.lock("tx")
-                        proto.fields["transport"] = world.transport()
-                        proto.fields["_queue_tx_conf"] = world.queue(
+                        PSET = Attrs(interp, proto)
+                        PSET["_tx_lock"] = world.lock("tx")
+                        PSET["transport"] = world.transport()
+                        PSET["_queue_tx_conf"] = world.queue(
                             "txconf", provider=lambda q: q.items.append(LUBA.LubaMsgTxConf(tx_id=ctx.fresh_int("txid", 0, 255), message=None)))
                         drvcls, send = SER.DriverLubaRs232, SER.DriverLubaRs232.send
                     else:
                         proto, kids = sci_proto(ctx, world, SS.WAIT_STATUS, [None] * 5)
-                        proto.fields["_tx_lock"] = world.lock("tx")
-                        proto.fields["transport"] = world.transport()
-                        proto.fields["_device_settings"] = SER.DriverSCIRS232.SCIRS232DeviceSettings(True, False, True)
-                        proto.fields["_queue_rx_info"] = world.queue(
+                        PSET = Attrs(interp, proto)
+                        PSET["_tx_lock"] = world.lock("tx")
+                        PSET["transport"] = world.transport()
+                        PSET["_device_settings"] = SER.DriverSCIRS232.SCIRS232DeviceSettings(True, False, True)
+                        PSET["_queue_rx_info"] = world.queue(
                             "info", items=[SER.DriverSCIRS232.SCIRS232DeviceReply(id=0, code=0) for _ in range(nstale)],
                             provider=lambda q: q.items.append(SER.DriverSCIRS232.SCIRS232DeviceReply(id=ctx.fresh_int("id", 0, 15), code=0)))
                         drvcls, send = SER.DriverSCIRS232, SER.DriverSCIRS232.send
-                    rawq = proto.fields["_queue_rx_raw_dali"]
+                    rawq = PSET["_queue_rx_raw_dali"]
                     rawq.items.extend(stale)
 
                     def bus_answers(q):
@@ -253,6 +260,9 @@ def units(tier):
                 unit("%s/send/%s/stale=%d%s" % (gw, vname, nstale, "/in-transaction" if in_tx else ""), r_ser)
     return U
 
+
+# checks whose proof units establish the callee contracts applied here (re-verified by this check, see main.dependency_units)
+DEPENDENCIES = ['C04', 'C05']
 
 META = {
     "level": "proof",
